@@ -1,9 +1,12 @@
 import NavisModel.Drv.Proto
 import NavisModel.Drv.Forest
 import NavisModel.Model.StrahlerSweep
+import NavisModel.Model.SegmentVariants
+import NavisModel.Model.FlowVariants
+import NavisModel.Model.ComponentVariants
 /-! Extension commands for C04 (line protocol prefix `c04x.`). -/
 namespace Navis.Drv.C04Ext
-open Navis.Forest Navis.Proto Navis.Drv.Forest Navis.Sweep
+open Navis.Forest Navis.Proto Navis.Drv.Forest Navis.Sweep Navis.SegVar Navis.Flow Navis.FlowVar
 
 def parsePick (s : String) : Option (St → Nat) :=
   match s.splitOn ":" with
@@ -32,6 +35,58 @@ def run (cmd rest : String) : Option String :=
       | some col => pure (showCol t col)
       | none => pure "ERR"
     | _ => none
+  | "break" => do
+    -- "igraph|nx" | table (with labels) → `_break_segments` of that Python variant as written (model order)
+    let (a, tb) ← split2 rest
+    let t ← parseTable tb
+    match (if a == "igraph" then breakIgraph t else breakNx t) with
+    | some ss => pure (showSegs ss)
+    | none => pure "ERR"
+  | "gen" => do
+    -- "igraph|nx weighted" | table (with labels) → `_generate_segments` of that variant, exact order
+    let (a, tb) ← split2 rest
+    let t ← parseTable tb
+    match words a with
+    | [v, w] =>
+      let len := if w == "1" then coordLen t else fun _ _ => 1
+      match (if v == "igraph" then genIgraph t len else genNx t len) with
+      | some ss => pure (showSegs ss)
+      | none => pure "ERR"
+    | _ => none
+  | "sfcpy" =>
+    -- mode | pre | post | table (with labels) → the Python path of synapse_flow_centrality as written
+    -- (formula at branch/root/connector nodes, propagation along the small segments, fork rule)
+    match (rest.splitOn "|").map trim with
+    | [md, pr, po, tb] => do
+      let t ← parseTable tb
+      let pre ← intList? pr
+      let post ← intList? po
+      let m ← match md with
+        | "centrifugal" => some Mode.centrifugal
+        | "centripetal" => some Mode.centripetal
+        | "sum" => some Mode.sum
+        | _ => none
+      match sfcPython t m pre post (smallSegments t) with
+      | some col => pure (showCol t col)
+      | none => pure "ERR"
+    | _ => none
+  | "components" => do
+    -- table → components by root labels (fastcore) # by undirected closure (igraph / networkx); canonical sets
+    let t ← parseTable rest
+    let canon := fun (cs : List (List Int)) => canonSegs (cs.map sortedInts)
+    pure (showSegs (canon (componentsByRoot t)) ++ " # " ++ showSegs (canon (componentsByClosure t)))
+  | "georows" => do
+    -- from | table → row labels of geodesic_matrix(from_=…): "python-order # fastcore-order"
+    let (a, tb) ← split2 rest
+    let t ← parseTable tb
+    let fr ← intList? a
+    pure (showInts (geoRowLabelsPython t fr) ++ " # " ++ showInts (geoRowLabelsFastcore t fr))
+  | "rerootpath" => do
+    -- node | table → igraph-variant path # networkx-variant path
+    let (a, tb) ← split2 rest
+    let t ← parseTable tb
+    let r ← a.toInt?
+    pure ((match rerootPathIgraph t r with | some p => showInts p | none => "ERR") ++ " # " ++ showInts (rerootPathNx t r))
   | _ => none
 
 end Navis.Drv.C04Ext
